@@ -122,6 +122,29 @@ fn big_strategy(_tier: Tier) -> BoxedStrategy<OneShot> {
         .boxed()
 }
 
+/// The one-shot functions at every SIMD level this CPU has (run-time dispatch is part of `hash`): the crate is
+/// forced to each level in turn through hook 1 (DESIGN.md §2.5); without the hook only the native level runs.
+#[derive(Clone, Debug, Serialize, Deserialize)]
+pub struct AtLevel {
+    pub level: crate::levels::Level,
+    pub case: OneShot,
+}
+
+pub fn check_at_level(c: &AtLevel) -> Result<(), String> {
+    if !crate::levels::available().contains(&c.level) {
+        return Ok(());
+    }
+    crate::levels::with_level(c.level, || check(&c.case)).map_err(|e| format!("[forced {:?}] {}", c.level, e))
+}
+
+fn level_strategy(tier: Tier) -> BoxedStrategy<AtLevel> {
+    let mut levels = crate::levels::available().clone();
+    if levels.is_empty() {
+        levels.push(crate::levels::Level::Portable);
+    }
+    (crate::gen::select(levels), random_strategy(tier)).prop_map(|(level, case)| AtLevel { level, case }).boxed()
+}
+
 pub fn subs() -> Vec<Box<dyn DynSub>> {
     vec![
         Box::new(EnumSub::<OneShot> {
@@ -141,6 +164,16 @@ pub fn subs() -> Vec<Box<dyn DynSub>> {
             strategy: random_strategy,
             classify,
             check,
+            known: None,
+            crumb: false,
+        }),
+        Box::new(PropSub::<AtLevel> {
+            name: "levels",
+            rule: "proptest: the `random` generator with the crate forced to each SIMD level of this CPU (portable, SSE2, SSE4.1, AVX2, AVX-512) through hook 1: tree code that depends on the run-time SIMD degree; same oracle; non-trivial as for random",
+            cases: (24000, 300000),
+            strategy: level_strategy,
+            classify: |c| classify(&c.case).tag(true, crate::levels::cfg_tag(c.level)),
+            check: check_at_level,
             known: None,
             crumb: false,
         }),
